@@ -89,7 +89,19 @@ def call(w, e, st):
                     if isinstance(v, tuple) and len(v) == 4 and v[0] == "lit" and v[1] == "dict" and all(is_const(k) and isinstance(k[2], str) for k, _x in v[2]):
                         flat_kw.extend((k[2], x) for k, x in v[2])
                     else:
-                        ok = False
+                        # **d with a dict whose key set was established (keys(d) == {...}): one
+                        # keyword per key
+                        ks = None
+                        for f in s.closure():
+                            if f[0] == "keys" and f[1] == v and all(isinstance(k0, str) for k0 in f[2]):
+                                ks = f[2]
+                        vt = s.types(v)
+                        if ks is not None and vt is not None and vt <= {"dict"}:
+                            from .terms import Sub as _Sub
+
+                            flat_kw.extend((k0, _Sub(v, C(k0))) for k0 in sorted(ks))
+                        else:
+                            ok = False
                 else:
                     flat_kw.append((n, v))
             if ok:
